@@ -661,7 +661,60 @@ def _(M, a):
     alg, buf = a[0], a[1]
     st = bufstate(M, buf)
     w, signed = M.cks_hint.get(alg, M.cks_hint['*'])
-    return refmod.cks_uf(alg, w, list(st.cell.v[:buf_len(st)]))
+    return refmod.cks_uf(alg, w, list(st.cell.v[st.r:buf_len(st)]))
+
+
+def _new_buffer(M, items_cell, off, n, cap):
+    tid = M.p.tid_of('bytes.Buffer')
+    if tid is None:
+        raise Unsupported('bytes.Buffer type not in the SSA dump')
+    st = BufState()
+    st.cell, st.r, st.n, st.cap = items_cell, off, off + n, off + cap
+    v = M.p.zero(tid)
+    v[0] = st
+    return Ptr(Cell(v, tag='bytes.Buffer'))
+
+
+@gintr('bytes.NewBuffer')
+def _(M, a):
+    # NewBuffer takes ownership of the slice: the new buffer ALIASES the array it was given (contents = the slice, unread)
+    sl = a[0]
+    if sl is None:
+        return _new_buffer(M, Cell([]), 0, 0, 0)
+    if not (isinstance(sl.off, int) and isinstance(sl.len, int)):
+        raise Unsupported('bytes.NewBuffer on a slice with symbolic bounds')
+    return _new_buffer(M, sl.cell, sl.off, sl.len, sl.cap if isinstance(sl.cap, int) else sl.len)
+
+
+@gintr('bytes.NewBufferString')
+def _(M, a):
+    bs = sbytes(a[0])
+    return _new_buffer(M, Cell(list(bs)), 0, len(bs), len(bs))
+
+
+@gintr('(*bytes.Buffer).Reset')
+def _(M, a):
+    st = bufstate(M, a[0])
+    st.r, st.n = 0, 0
+    return None
+
+
+@gintr('(*bytes.Buffer).Truncate')
+def _(M, a):
+    st = bufstate(M, a[0])
+    k = a[1]
+    if not isinstance(k, int):
+        raise Unsupported('bytes.Buffer.Truncate with a symbolic length')
+    if k < 0 or k > st.n - st.r:
+        raise GoPanic('explicit', 'bytes.Buffer: truncation out of range', 'bytes.Buffer.Truncate')
+    st.n = st.r + k
+    return None
+
+
+@gintr('(*bytes.Buffer).Cap')
+def _(M, a):
+    st = bufstate(M, a[0])
+    return st.cap
 
 
 def _put(le, k):
